@@ -348,10 +348,78 @@ def nextCloser (s : Sig) : Name := s.owner.take (s.labels + 1)
 
 def wildcardExpanded (s : Sig) : Bool := decide (s.labels < s.owner.length)
 
+/-- `nsecProvesENT`: the span's next name lies strictly below `name`, so `name` is an empty
+non-terminal — it exists (697f61e). -/
+def provesENT (n : NSEC) (name : Name) : Bool :=
+  decide (name.length < n.next.length) && nameInZone n.next name
+
 /-- `VerifyWildcardAnswerForZoneWithWork` with NSEC records only; `covers` is `nsecCovers`. -/
 def verifyWildcard (covers : NSEC → Name → Bool) (ansSigs : List Sig) (nsecs : List NSEC) : Res :=
-  if ansSigs.all (fun s => !wildcardExpanded s || nsecs.any (fun n => covers n (nextCloser s)))
+  if ansSigs.all (fun s => !wildcardExpanded s ||
+      nsecs.any (fun n => covers n (nextCloser s) && !provesENT n (nextCloser s)))
   then .ok else .fail .wildcard
+
+/-- `dnsutil.FilterRRsToZone` on NSEC records: owner AND next name inside the zone. -/
+def filterNSEC (zone : Name) (l : List NSEC) : List NSEC :=
+  l.filter fun n => nameInZone n.owner zone && nameInZone n.next zone
+
+/-- a record of a section as `dnsutil.FilterRRsToZone` looks at it. -/
+structure SecRR where
+  owner : Name
+  rtype : Nat
+  next : Option Name := none    -- NextDomain of an NSEC
+deriving DecidableEq, Repr
+
+/-- `dnsutil.FilterRRsToZone(rrs, zone)`: owner inside the zone; an NSEC also needs its next name inside. -/
+def keepInZone (zone : Name) (r : SecRR) : Bool :=
+  nameInZone r.owner zone &&
+    (if r.rtype == 47 then (match r.next with | some n => nameInZone n zone | none => true) else true)
+
+def filterToZone (zone : Name) (l : List SecRR) : List SecRR := l.filter (keepInZone zone)
+
+/-- the wildcard step of `Resolver.answer`: the authority section is filtered to the signer zone
+FIRST (out-of-zone authority records were exempt from the signature check), then the
+no-closer-match proof is looked for in what is left. -/
+def answerWildcard (covers : NSEC → Name → Bool) (signer : Name) (ansSigs : List Sig) (nsecs : List NSEC) : Res :=
+  verifyWildcard covers ansSigs (filterNSEC signer nsecs)
+
+/-! ### candidate signers — `Resolver.findRRSIGSigners` -/
+
+/-- presentation form of a name made of plain labels (`www.example.com.`). -/
+def presentation (n : Name) : String :=
+  if n.isEmpty then "." else ".".intercalate n.reverse ++ "."
+
+/-- the order in which candidates are tried: more labels first, then by lower-cased text. -/
+def signerBefore (a b : Name) : Bool :=
+  if a.length != b.length then decide (b.length < a.length) else decide (presentation a ≤ presentation b)
+
+def insertSigner (x : Name) : List Name → List Name
+  | [] => [x]
+  | y :: t => if signerBefore x y then x :: y :: t else y :: insertSigner x t
+
+def sortSigners : List Name → List Name
+  | [] => []
+  | x :: t => insertSigner x (sortSigners t)
+
+/-- does signature `s` (owner, type covered, signer) nominate its signer? -/
+def nominates (have_ : List (Name × Nat)) (qname : Name) (inAnswer : Bool) (s : Name × Nat × Name) : Bool :=
+  have_.contains (s.1, s.2.1) && (!inAnswer || s.1 == qname || s.2.1 == tDNAME)
+
+def dedupNames : List Name → List Name → List Name
+  | [], _ => []
+  | x :: t, seen => if seen.contains x then dedupNames t seen else x :: dedupNames t (x :: seen)
+
+/-- `findRRSIGSigners(resp, qname, inAnswer)`: `recs` = (owner, type) of the non-RRSIG records of the
+section, `sigs` = (owner, type covered, signer) of its RRSIGs, in message order. -/
+def findRRSIGSigners (recs : List (Name × Nat)) (sigs : List (Name × Nat × Name)) (qname : Name) (inAnswer : Bool) : List Name :=
+  sortSigners (dedupNames ((sigs.filter (nominates recs qname inAnswer)).map fun s => s.2.2) [])
+
+/-- `hasSupportedDS`. -/
+def hasSupportedDS (dss : List DS) : Bool := dss.any supportedDS
+
+/-- `composeWireChase`: the composed reply is authentic only if EVERY segment (the alias entry and
+every hop up to the terminal one) was stored as validated. -/
+def wireChaseAD (segs : List Bool) : Bool := segs.all id
 
 /-! ### the NSEC proof of an insecure delegation — `dnssec.VerifyDelegationNSEC` -/
 
